@@ -23,6 +23,7 @@ def run(ctx, res):
     deletion.merged_before_delete(ctx, res, "C02.R3")
     intervals.union_rule(ctx, res, "C02.R3b")
     intervals.absorb_rule(ctx, res, "C02.R8")
+    intervals.halves_disjoint(ctx, res, "C02.R9")
     deletion.scanner_tables(ctx, res, "C02.R4")
     deletion.pausing_sites(ctx, res, "C02.R5")
     deletion.seam_ranges(ctx, res, "C02.R6")
